@@ -33,7 +33,7 @@ MUTATIONS = ["trace_edit", "trace_kwargs_edit", "move", "rotate", "position_inpl
 def plan(tier):
     return {"shards": 8 if tier == "quick" else 16, "budget_s": 25 if tier == "quick" else 240,
             "required_counters": ["copies_checked", "alias_checks", "mutations_applied", "overrides_checked",
-                                  "collection_copies", "with_parent"]}
+                                  "collection_copies", "with_parent", "failed_copies_checked", "failed_copies_with_parent"]}
 
 
 # ------------------------------------------------------------------ alias sanitizer
@@ -97,7 +97,9 @@ def gen_case(rng):
 
         spec = rand_tree(rng, int(rng.integers(0, 3)), int(rng.choice([1, 2])), [0])
     style_mode = str(rng.choice(["untouched", "kwargs", "initialised", "label", "model3d_trace"]))
-    override = str(rng.choice(["none", "position", "style_label", "style_opacity", "geometry", "style_dict"]))
+    override = str(rng.choice(["none", "position", "style_label", "style_opacity", "geometry", "style_dict",
+                               "style_dict_label", "style_dict_nested", "bad_position", "bad_style", "bad_style_value",
+                               "bad_geometry", "uncopyable"]))
     return {"spec": spec, "style_mode": style_mode, "with_parent": bool(rng.random() < 0.4), "override": override,
             "mutation": str(rng.choice(MUTATIONS)), "direction": str(rng.choice(["orig", "copy"])),
             "mut_seed": int(rng.integers(0, 2**31))}
@@ -119,6 +121,15 @@ def prepare(case):
         # a user defined extra 3d model: containers (list of Trace3d with args / kwargs) inside the style
         obj.style.model3d.add_trace(backend="generic", constructor="Scatter3d",
                                     kwargs={"x": [0, 1], "y": [0, 0], "z": [0, 1], "mode": "lines"}, show=True)
+    if case["override"] == "uncopyable":
+        # deepcopy of this object fails part-way: copy() must raise and leave the original tree as it was
+        from vfw.props.c11 import uncopyable_field_func
+
+        bad = magpy.misc.CustomSource(field_func=uncopyable_field_func())
+        if hasattr(obj, "_children"):
+            obj.add(bad)
+        else:
+            obj = bad
     parent = None
     if case["with_parent"]:
         sib = magpy.Sensor()
@@ -136,6 +147,22 @@ def override_kwargs(case, obj):
         return {"style_opacity": 0.123}
     if o == "style_dict":
         return {"style": {"color": "blue"}}
+    if o == "style_dict_label":
+        return {"style": {"label": "mine"}}
+    if o == "style_dict_nested":
+        return {"style": {"path": {"line": {"width": 7}}, "opacity": 0.25}}
+    if o == "bad_position":
+        return {"position": "nowhere"}
+    if o == "bad_style":
+        return {"style_nosuchproperty": 1}
+    if o == "bad_style_value":
+        return {"style_opacity": "very"}
+    if o == "bad_geometry":
+        for a, v in (("dimension", "big"), ("diameter", (1, 2)), ("handedness", "up"), ("current", "much"), ("moment", (1.0, 2)),
+                     ("vertices", 3.0)):
+            if hasattr(obj, a):
+                return {a: v}
+        return {"position": (1, 2)}
     if o == "geometry":
         for a, v in (("dimension", None), ("diameter", 3.21), ("handedness", "left"), ("current", 9.5), ("moment", (1.0, 2, 3))):
             if hasattr(obj, a) and a != "dimension":
@@ -225,16 +252,41 @@ def check_case(ctx, case):
     import magpylib as magpy
     from vfw.props import c11
 
+    must_fail = case["override"].startswith("bad_") or case["override"] == "uncopyable"
     try:
         with quiet():
             obj, parent = prepare(case)
             root = parent if parent is not None else obj
             before_tree = D.digest_tree(root)
             kw = override_kwargs(case, obj)
+    except Exception as e:
+        ctx.inconclusive_case("setup failed: " + repr(e)[:150], case)
+        return
+    import copy as _copy
+
+    kw_given = _copy.deepcopy(kw)     # what the caller asked for (a faulty copy() may write into the dicts it is handed)
+    try:
+        with quiet():
             cp = obj.copy(**kw)
     except Exception as e:
-        ctx.violation({"kind": "copy-raised", "cls": case["spec"]["cls"], "type": type(e).__name__,
-                       "override": case["override"]}, case, exc_info(e))
+        if not must_fail:
+            ctx.violation({"kind": "copy-raised", "cls": case["spec"]["cls"], "type": type(e).__name__,
+                           "override": case["override"]}, case, exc_info(e))
+            return
+        # a copy() that fails part-way: the original tree is as it was (values, parent/children links)
+        ctx.evaluated(case, nontrivial=True)
+        ctx.count("failed_copies_checked")
+        if case["with_parent"]:
+            ctx.count("failed_copies_with_parent")
+        with quiet():
+            after_tree = D.digest_tree(root)
+        if after_tree != before_tree:
+            ctx.violation({"cls": case["spec"]["cls"], "kind": "failed-copy-changed-original", "override": case["override"]},
+                          case, {"diff": D.diff(before_tree, after_tree), "raised": exc_info(e)})
+        return
+    if must_fail:
+        ctx.violation({"kind": "invalid-override-accepted", "cls": case["spec"]["cls"], "override": case["override"]}, case,
+                      {"kw": repr(kw)})
         return
     cls = case["spec"]["cls"]
     key = {"cls": cls}
@@ -286,7 +338,7 @@ def check_case(ctx, case):
     else:
         ctx.count("overrides_checked")
         # the override reached the copy and not the original
-        for k, v in kw.items():
+        for k, v in kw_given.items():
             if k == "position" and not np.allclose(cp.position, v):
                 ctx.violation({**key, "kind": "override-not-applied", "override": k}, case, {"copy": cp.position})
                 return
@@ -296,6 +348,26 @@ def check_case(ctx, case):
             if k == "style_opacity" and cp.style.opacity != v:
                 ctx.violation({**key, "kind": "override-not-applied", "override": k}, case, {"copy": cp.style.opacity})
                 return
+            if k == "style":
+                flat = []
+
+                def walk(d, path):
+                    for kk, vv in d.items():
+                        walk(vv, path + [kk]) if isinstance(vv, dict) else flat.append((path + [kk], vv))
+                walk(v, [])
+                for path, want in flat:
+                    got = cp.style
+                    for a in path:
+                        got = getattr(got, a)
+                    if got != want:
+                        ctx.violation({**key, "kind": "override-not-applied", "override": "style." + ".".join(path)}, case,
+                                      {"copy": got, "want": want})
+                        return
+            if k not in ("position", "style") and not k.startswith("style_"):
+                got = getattr(cp, k)
+                if not np.array_equal(np.asarray(got, dtype=object if isinstance(got, str) else None), np.asarray(v, dtype=object if isinstance(v, str) else None)):
+                    ctx.violation({**key, "kind": "override-not-applied", "override": k}, case, {"copy": got, "want": v})
+                    return
     # forest consistency inside the copy
     if cls == "Collection":
         class U:  # minimal universe for the C11 checker
